@@ -1,7 +1,8 @@
 (* C14 -- statements only; see DESIGN.md section 6 C14.  Theorems are added as the proofs land;
    the witnesses below are evaluated in the kernel on the whole-parser model. *)
 From Coq Require Import String.
-From MdIt Require Import Prims Tables Tree Render Core Dump Dispatch TreeProofs FragProofs.
+From MdIt Require Import Prims Tables Ruler Tree Render Core Dump Dispatch TreeProofs FragProofs PairsProofs RenderTotalProofs.
+From MdIt Require KindProofs NoRootProofs.
 Local Open Scope string_scope.
 Local Open Scope list_scope.
 Local Open Scope N_scope.
@@ -22,13 +23,53 @@ Example C14_witness_merged_text :
   tree_of "C" "a * b *c" = bs "0:Root()@0-8{};1:Paragraph()@0-8{};2:Text(61202a2062202a63)@0-8{}".
 Proof. vm_compute. reflexivity. Qed.
 
-(* FULL STATEMENT (not yet proved for the whole parser; decided on every run by the tree-shape oracle
-   and the model/implementation correspondence):
+(* FULL STATEMENT (proved for the whole parser only in the parts listed below; the rest is decided on every run by the
+   tree-shape oracle and the model/implementation correspondence):
      forall cfg src t, has_paragraph cfg -> parse cfg src = inr t -> wf_tree t
    where wf_tree = final kinds only, Root at the top only, list/item discipline, inline kinds under
    leaf blocks / items / inline containers only, childless leaves, no empty Text, no adjacent Text.
 
-   PROVED PART (the clean-up pass every tree goes through, for every tree whatsoever): *)
+   PROVED FOR THE WHOLE PARSER (every input, every parser built from the shipped plugins whose core chain runs inline
+   parsing after the last block pass and fragments-join after the last inline pass -- C01_shipped_chains evaluates
+   that condition for the shipped sets): final node kinds only (no inline-root placeholder, no delimiter placeholder,
+   no empty node, heading levels 1..6 / 1..2), no empty Text and no two adjacent Text siblings anywhere, Root on top.
+   NOT PROVED: the placement rules (items under lists, inline under leaf blocks, childless leaves, Root nowhere else). *)
+
+Theorem C14_final_tree : forall fuel m src d cc,
+  md_pairs_emph m = true -> snd (r_iter (md_core m)) = inr cc -> chain_renders cc = true ->
+  snd (parse fuel m src) = inr d ->
+  all_k KindProofs.kind_ok (d_root d) = true /\      (* no Empty node, heading levels in range *)
+  all_k NoRootProofs.kind_ok (d_root d) = true /\    (* no inline-root placeholder *)
+  all_k not_marker (d_root d) = true /\              (* no delimiter placeholder *)
+  frag_ok (d_root d) = true /\                       (* no empty Text, no adjacent Text siblings, at every level *)
+  n_kind (d_root d) = KRoot.
+Proof. exact parse_final_tree. Qed.
+
+(* the first of these needs no condition on the chain at all *)
+Theorem C14_no_empty_any_chain : forall fuel m src d,
+  md_pairs_emph m = true -> snd (parse fuel m src) = inr d -> KindProofs.raw_free (d_root d) = true.
+Proof. intros fuel m src d Hp. apply KindProofs.parse_kinds_ok. apply emph_kinds. exact Hp. Qed.
+
+Theorem C14_shipped_pairs : forall cfg nest, md_pairs_emph (build_md cfg nest) = true.
+Proof. exact build_md_pairs_emph. Qed.
+
+(* the three kind predicates, spelled out *)
+Example C14_predicates :
+  (forall k, KindProofs.kind_ok k = match k with KEmpty => false | KATX l => (1 <=? l) && (l <=? 6) | KSetext l _ => (1 <=? l) && (l <=? 2) | _ => true end) /\
+  (forall k, NoRootProofs.kind_ok k = match k with KInlineRoot _ _ => false | _ => true end) /\
+  (forall k, not_marker k = match k with KEmphMarker _ _ _ _ _ => false | _ => true end).
+Proof. repeat split; intros k; destruct k; reflexivity. Qed.
+
+(* non-vacuity of the whole-parser theorem: a document with placeholders of both kinds on the way *)
+Example C14_final_nonvacuous :
+  let m := build_md (bs "CsW") 100 in
+  match snd (parse (default_fuel m) m (bs "# *a* _b
+- [c *d](e) ~~f~~ **")) with
+  | inr d => all_k not_marker (d_root d) && frag_ok (d_root d) && (2 <? N.of_nat (size (d_root d)))
+  | inl _ => false end = true.
+Proof. vm_compute. reflexivity. Qed.
+
+(* THE CLEAN-UP PASS on its own (for every tree whatsoever): *)
 
 (* after FragmentsJoin no node anywhere in the tree has a delimiter placeholder, an empty Text
    or two adjacent Text nodes among its children *)
@@ -52,6 +93,9 @@ Example C14_nonvacuous :
   map (fun c => content_of c) (n_children (fj_walk t)) = [bs "a*b"; []] /\ frag_ok (fj_walk t) = true.
 Proof. vm_compute. split; reflexivity. Qed.
 
+Print Assumptions C14_final_tree.
+Print Assumptions C14_no_empty_any_chain.
+Print Assumptions C14_shipped_pairs.
 Print Assumptions C14_fragments_join_partial.
 Print Assumptions C14_join_keeps_others.
 Print Assumptions C14_join_keeps_text.
